@@ -22,10 +22,16 @@ Oracle (predictive; the driver knows what it did):
                   'value' from the positional value + 'source' (caller's or default) with
                   '_ext_' prepended unless present;
   not running  -> EdzedInvalidState and no block received anything;
-  for stops whose instant is decided inside the simulator (CBlock failure, failed
-  initialisation, raw task cancellation, SIGTERM hand-over through call_soon) the documented
-  Circuit.error ("None if the simulation wasn't stopped yet") is consulted at the moment of
-  the call (monitor).
+  a stop that happens inside the simulation task (a CBlock function that raises, a block
+  whose init_regular raises) is caused by scripted user code, which tells the model at the
+  very moment it raises; send() calls are then made from callbacks queued at that moment
+  (0-2 call_soon hops) and from a task resumed right behind the failing step;
+  a raw cancel() of an idle (fully initialised) simulation task counts as noticed as soon as
+  the cancelling task has yielded once (FIFO ready queue); only for a raw cancel() during the
+  start-up and for the SIGTERM hand-over (call_soon_threadsafe) both answers are accepted
+  until Circuit.error is set or a block's stop() has been called.
+  An explicit, documented Circuit.finalize() before the start (per-run option) does not make
+  the circuit running.
   Every delivery that is not the top of an ExtEvent.send() is internal: its 'source' must not
   begin with '_ext_'; no block of the circuit may have a name beginning with '_ext_';
   explicit reserved names are refused.
@@ -58,6 +64,12 @@ with the F14 repair; all 19 caught, typical signature in brackets):
       (needs the cancel_task cause and a send from stop()/stop_async())
   M23 run_forever yields once more before it registers its task        [refused-while-running/first_step]
       (needs a send right after the first yield following create_task)
+Planted changes seeded/C14-s1..s6: all detected at the quick tier; s4 (the error that ended
+the simulation task is recorded one loop iteration late) needs a stop inside the simulation
+task that does not go through abort() plus a send() queued at that moment / resumed right
+behind the failing step [delivered-when-not-running/after_failure:*, aborting:calc_error,
+aborting:cancel_task]; s6 (is_ready() derived from the 'finalized' flag) needs the explicit
+finalize() before the start [delivered-when-not-running/no_task, created].
 Not expressible: "ready as soon as the task object exists" (_simtask is assigned by the task).
 Side observation (not C14): Circuit.wait_init() after abort()-before-start raises
 AttributeError('_init_done') instead of EdzedInvalidState; counted as wait_init_attribute_error.
@@ -98,7 +110,8 @@ RULE = ("one run = one circuit (scripted recorder, validated Input, Counter, FSM
 REACH_EXPECTED = ['phase_no_task', 'phase_created', 'phase_first_step', 'phase_async_init',
                   'phase_init_async_probe', 'phase_running', 'phase_aborting',
                   'phase_cleanup_driver', 'phase_cleanup_stop', 'phase_cleanup_async',
-                  'phase_finished', 'lenient_window', 'monitor_used', 'falsy_value',
+                  'phase_finished', 'phase_after_failure', 'self_stop', 'explicit_finalize',
+                  'cancel_noticed_after_yield', 'lenient_window', 'falsy_value',
                   'source_given_prefixed', 'source_given_plain', 'source_odd', 'default_source',
                   'ctor_source', 'internal_user_named', 'internal_auto_named', 'internal_repeat',
                   'internal_timedate', 'internal_generated_class', 'handler_error',
@@ -108,9 +121,11 @@ REACH_EXPECTED = ['phase_no_task', 'phase_created', 'phase_first_step', 'phase_a
 ASSUMPTIONS = [
     "'running' is read from docs/simulation.rst (is_ready): true immediately after the "
     "simulation task started, also during the initialisation, false when the simulation stops",
-    "between a raw cancel() of the simulation task (or the SIGTERM handler, which hands over "
-    "with call_soon) and the moment the circuit notices, both answers are accepted unless "
-    "Circuit.error is already set",
+    "between a raw cancel() of a still initialising simulation task (or the SIGTERM handler, "
+    "which hands over with call_soon_threadsafe, or the end of a supporting coroutine under "
+    "edzed.run) and the moment the circuit notices, both answers are accepted unless "
+    "Circuit.error is already set; a raw cancel() of an idle simulation counts as noticed after "
+    "one yield of the cancelling task",
     "non-string 'source' values are outside the quantifier: TypeError, refusal, or a delivery "
     "with a marked string source are all accepted",
 ]
@@ -253,7 +268,12 @@ def gen(rng, tier, index=0):
             body.append(gen_send(rng, 'running'))
         body += term
     post = gen_sends(rng, 'finished', 1, 3)
-    return {'knobs': knobs, 'entry': entry, 'cause': cause, 'tphase': tphase,
+    after_failure = []
+    if cause in ('calc_error', 'init_failure'):
+        # send() from callbacks queued at the very moment the simulation task fails
+        for hops in rng.choice([[0], [0, 1], [0, 0, 2], [1, 0], [2, 1, 0]]):
+            after_failure.append({'hops': hops, 'send': gen_send(rng, 'after_failure')})
+    return {'knobs': knobs, 'finalize': rng.random() < 0.3, 'after_failure': after_failure, 'entry': entry, 'cause': cause, 'tphase': tphase,
             'async_init': async_init, 'cleanup': cleanup, 'relay_cls': relay_cls,
             'with_td': with_td, 'with_repeat': with_repeat,
             'reserved': [rng.choice(RESERVED_TRIES) for _ in range(rng.randint(0, 2))],
@@ -340,10 +360,21 @@ def relay_init(self):
     self.set_output('r0')
 
 
-def boom_func(x):
-    if x == 'BOOM':
-        raise Injected('calc failure')
-    return x
+class FailInit(edzed.SBlock):
+    """A block whose initialisation fails: the simulation stops by itself."""
+
+    def init_regular(self):
+        self.x_ctx.failure()
+        raise Injected('init failure')
+
+
+def make_boom_func(ctx):
+    def boom_func(x):
+        if x == 'BOOM':
+            ctx.failure()
+            raise Injected('calc failure')
+        return x
+    return boom_func
 
 
 def mark(source):
@@ -363,7 +394,7 @@ class Ctx:
         self.started = False
         self.stopped = False
         self.lenient = False
-        self.monitor = plan['cause'] == 'init_failure'
+        self.deferred_error = None
         self.cause_done = False
         self.in_cleanup = False
         # observation
@@ -388,10 +419,27 @@ class Ctx:
         if self.lenient:
             self.run.fired('reach:lenient_window')
             return 'refuse' if err is not None else 'either'
-        if self.monitor:
-            self.run.fired('reach:monitor_used')
-            return 'refuse' if err is not None else 'deliver'
         return 'deliver'
+
+    # ---- the simulation task is failing right now (called by scripted user code that
+    # raises inside the simulation task): from this moment the simulation is stopped
+    def failure(self):
+        self.stopped = True
+        self.lenient = False
+        self.run.fired('reach:self_stop')
+        for item in self.plan.get('after_failure', []):
+            self.run.loop.call_soon(self._hop, item, int(item.get('hops', 0)))
+
+    def _hop(self, item, hops):
+        if hops > 0:
+            self.run.loop.call_soon(self._hop, item, hops - 1)
+            return
+        try:
+            self.ext_send(item['send'])
+        except PlanError as err:
+            self.deferred_error = err
+        except (KeyError, TypeError) as err:
+            self.deferred_error = PlanError(f"bad after_failure item: {err!r}")
 
     # ---- observation of deliveries (hook on every destination block)
     def hook(self, phase, blk, etype, arg):
@@ -440,7 +488,7 @@ class Ctx:
         phase = spec.get('phase', '?')
         cause = self.plan['cause']
         site = f"{phase}:{cause}" if phase in ('aborting', 'cleanup_driver', 'cleanup_stop',
-                                               'cleanup_async') else phase
+                                               'cleanup_async', 'after_failure') else phase
         dest_name = spec['dest']
         dest = self.blocks.get(dest_name)
         if dest is None:
@@ -675,7 +723,7 @@ def build(ctx, plan):
                            {'_event_put': relay_put, 'init_regular': relay_init})
         blocks['relay'] = relay_class(None, on_every_output=edzed.Event(rec, 'from_relay'))
         edzed.Not('n1', on_output=edzed.Event(rec, 'from_not')).connect('_not_inp')
-        edzed.FuncBlock('fb', func=boom_func).connect('inp')
+        edzed.FuncBlock('fb', func=make_boom_func(ctx)).connect('inp')
         if plan.get('with_td'):
             edzed.TimeDate(None, times=[[[22, 13, 22], [22, 13, 23]]],
                            on_output=edzed.Event(rec, 'from_td'))
@@ -687,7 +735,7 @@ def build(ctx, plan):
             InitProbe('iprobe', x_ctx=ctx, x_spec=plan['async_init'])
         CleanProbe('cprobe', x_ctx=ctx, x_spec=plan['cleanup'])
         if plan['cause'] == 'init_failure':
-            edzed.Input('noinit')
+            FailInit('failinit', x_ctx=ctx)
     except PlanError:
         raise
     except Exception as err:    # pylint: disable=broad-except
@@ -730,6 +778,11 @@ def execute(plan, trace=False):
     try:
         build(ctx, plan)
         circuit = ctx.circuit
+        if plan.get('finalize'):
+            # documented: "The completed circuit may be explicitly finalized"; that does not
+            # start the simulation
+            circuit.finalize()
+            run.fired('reach:explicit_finalize')
         blocks = ctx.blocks
         entry = plan['entry']
         state = {'simtask': None, 'helpers': [], 'run_exc': None}
@@ -778,13 +831,17 @@ def execute(plan, trace=False):
                     raise PlanError('no task to cancel')
                 state['simtask'].cancel()
                 ctx.lenient = True
+                # a fully initialised simulation is idle in its queue.get(): it receives the
+                # cancellation in its very next step, i.e. before a task that yields now
+                # (FIFO ready queue) is resumed
+                state['cancel_strict'] = bool(state.get('init_done'))
             elif cause == 'calc_error':
                 # delivered while running; the CBlock fails when the simulator task runs next
-                ctx.monitor = True
+                # (the failing function itself tells the model, see Ctx.failure)
                 ctx.ext_send({'do': 'send', 'phase': 'running', 'dest': 'inp', 'etype': 'put',
                               'value': {'v': 'BOOM'}, 'raw': True, 'extra': {}, 'source': None, 'dsrc': None})
             elif cause == 'init_failure':
-                pass        # happened by itself (monitor mode from the beginning)
+                pass        # happened by itself (FailInit.init_regular tells the model)
             elif cause == 'sigterm':
                 handler = signal.getsignal(signal.SIGTERM)
                 if not callable(handler):
@@ -818,6 +875,10 @@ def execute(plan, trace=False):
                     ctx.ext_send(step)
                 elif do == 'yield':
                     await asyncio.sleep(0)
+                    if state.pop('cancel_strict', False):
+                        run.fired('reach:cancel_noticed_after_yield')
+                        ctx.lenient = False
+                        ctx.stopped = True
                 elif do == 'sleep':
                     await asyncio.sleep(max(0.0, float(step.get('t', 0))))
                     if ctx.lenient and state['simtask'] is not None and state['simtask'].done():
@@ -826,6 +887,7 @@ def execute(plan, trace=False):
                 elif do == 'wait_init':
                     try:
                         await circuit.wait_init()
+                        state['init_done'] = True
                     except edzed.EdzedInvalidState as err:
                         run.log('wait_init', err)
                     except AttributeError as err:
@@ -868,8 +930,7 @@ def execute(plan, trace=False):
                     await interpret(plan.get('body', []))
                 except Leave:
                     pass
-                if not simtask.done() and not ctx.stopped and not ctx.lenient \
-                        and not (ctx.monitor and circuit.error is not None):
+                if not simtask.done() and not ctx.stopped and not ctx.lenient:
                     # a plan without an effective cause: stop now
                     ctx.stopped = True
                     circuit.abort(asyncio.CancelledError('end of script'))
@@ -910,6 +971,8 @@ def execute(plan, trace=False):
                     h.cancel()
 
         run.run(main())
+        if ctx.deferred_error is not None:
+            raise ctx.deferred_error
         if run.main_exc is not None:
             if isinstance(run.main_exc, PlanError):
                 raise run.main_exc
